@@ -732,7 +732,17 @@ func (g *PacketGen) RunC13() {
 		if res := w.Recv(r, 1, p, t.tok, ps, h); res.Code == 0 {
 			w.hit("C13", "recv-accepted-with-port-edited "+pkeyStr(p))
 			t.recvOn[r.ChainName] = true
+		} else {
+			// whatever the port, a relay chain runs no application logic: it forwards or answers
+			w.hit("C11", "relay-chain-refused-a-packet-for-a-port-it-does-not-bind "+pkeyStr(p))
 		}
+	}
+	// an application acknowledging asynchronously with an empty (non-nil) acknowledgement
+	{
+		data, tok := g.randData()
+		p := packettypes.NewPacket(data, 77, a.ChainName, c.ChainName, "", "tibcmock")
+		_ = w.KWriteAck(c, p, tok, []byte{})
+		_ = w.KWriteAck(c, p, tok, nil)
 	}
 	// a relayed packet shown to its destination, relay field intact, with a genuine proof of the
 	// *source's* commitment: the destination must insist on the relay chain's commitment
